@@ -13,6 +13,7 @@
 #include "polyio.h"
 #include "valio.h"
 #include <assignment.h>
+#include <variable_list.h>
 #include <polynomial_vector.h>
 #include "polynomial/polynomial.h"
 #include "polynomial/coefficient.h"
@@ -83,7 +84,9 @@ static int route_check(bin_f op, const lp_polynomial_t* res, const lp_polynomial
  * marked external, the order is switched and the operation is run; results separated by " | ".
  *   gl  gcd lcm            ar  add sub mul           rp  t<main var of A> t<of B> resultant prem (X unless equal)
  *   cpd t<main var> cont pp derivative               se  s<sgn> value of evaluate
- *   ri  t<main var> count roots... (X unless the main variable is the unassigned one) */
+ *   ri  t<main var> count roots... (X unless the main variable is the unassigned one)
+ *   obs t<main var> c<is_constant> z<is_zero> d<degree> l<lc_sgn> v<variables> u<is_univariate> n<is_linear>
+ *       a<is_assigned for every subset of the variables assigned> */
 static void set_order_digits(const char* s) {
   int perm[PIO_NV]; int n = 0;
   if (strcmp(s, "-") != 0) for (; s[n] && n < PIO_NV; ++n) perm[n] = s[n] - '0';
@@ -127,6 +130,32 @@ static void xorder_case(void) {
       put_topvar(A);
       if (lp_polynomial_is_zero(A)) printf(" X");
       else { lp_polynomial_cont(R, A); put_text(R); lp_polynomial_pp(R, A); put_text(R); lp_polynomial_derivative(R, A); put_text(R); }
+    } else if (!strcmp(op, "obs")) {
+      /* observers that must not depend on the order (except through the main variable, which the model predicts) */
+      int used[PIO_NV] = {0}; int vs[PIO_NV]; int r = 0;
+      for (const char* c = ta; *c; ++c) if (*c == 'x') used[c[1] - '0'] = 1;
+      for (int i = 0; i < PIO_NV; ++i) if (used[i]) vs[r++] = i;
+      put_topvar(A);
+      printf(" c%d z%d d%zu l%d", lp_polynomial_is_constant(A) ? 1 : 0, lp_polynomial_is_zero(A) ? 1 : 0,
+             lp_polynomial_degree(A), lp_polynomial_lc_sgn(A));
+      lp_variable_list_t vl; lp_variable_list_construct(&vl); lp_polynomial_get_variables(A, &vl);
+      int got[PIO_NV] = {0}; int extra = 0;
+      for (size_t i = 0; i < vl.list_size; ++i) { int ix = pio_var_index(vl.list[i]); if (ix < 0 || got[ix]) extra = 1; else got[ix] = 1; }
+      lp_variable_list_destruct(&vl);
+      printf(" v"); { int any = 0; for (int i = 0; i < PIO_NV; ++i) if (got[i]) { printf("%d", i); any = 1; } if (!any) putchar('-'); if (extra) putchar('!'); }
+      printf(" u%d n%d a", lp_polynomial_is_univariate(A) ? 1 : 0, lp_polynomial_is_linear(A) ? 1 : 0);
+      /* lp_polynomial_is_assigned under every partial assignment of the polynomial's variables (bit i of the mask =
+         the i-th variable by index has a value) */
+      for (int mask = 0; mask < (1 << r); ++mask) {
+        lp_assignment_t* pm = lp_assignment_new(pio_db);
+        for (int i = 0; i < r; ++i) if (mask & (1 << i)) {
+          lp_value_t v; lp_integer_t one; lp_integer_construct_from_int(lp_Z, &one, 1 + i);
+          lp_value_construct(&v, LP_VALUE_INTEGER, &one); lp_assignment_set_value(pm, pio_x[vs[i]], &v);
+          lp_value_destruct(&v); lp_integer_destruct(&one);
+        }
+        putchar(lp_polynomial_is_assigned(A, pm) ? '1' : '0');
+        lp_assignment_delete(pm);
+      }
     } else if (!strcmp(op, "se")) {
       printf(" s%d ", lp_polynomial_sgn(A, m));
       lp_value_t* v = lp_polynomial_evaluate(A, m); vio_print(v); lp_value_delete(v);
